@@ -292,11 +292,13 @@ VmTrap vm_core_execute(VmState *vm) {
 
         case OP_ROT3: {
             if (vm->stack_size < 3) break;
+            /* x y z -> y z x: the third value comes to the top (what the code generator's
+             * min/max sequences are written for) */
             uint32_t top = vm->stack_size - 1;
-            NanoValue a = vm->stack[top];
-            vm->stack[top] = vm->stack[top - 1];
-            vm->stack[top - 1] = vm->stack[top - 2];
-            vm->stack[top - 2] = a;
+            NanoValue x = vm->stack[top - 2];
+            vm->stack[top - 2] = vm->stack[top - 1];
+            vm->stack[top - 1] = vm->stack[top];
+            vm->stack[top] = x;
             break;
         }
 
